@@ -2325,9 +2325,10 @@ func (n Nexthop) encode(version uint8, software Software, processFlag nexthopPro
 		// frr: stream_putc(s, api_nh->bh_type);
 		buf = append(buf, n.blackholeType)
 	}
-	if n.flags&zapiNexthopFlagLabel > 0 || (message&MessageLabel > 0 &&
-		version == 5 ||
-		version == 6 && software.name == "frr" &&
+	// the same condition as in decode: the label flag of the next hop, or
+	// the label bit of the message for the flavours that signal it there
+	if n.flags&zapiNexthopFlagLabel > 0 || message&MessageLabel > 0 &&
+		(version == 5 || version == 6 && software.name == "frr" &&
 			software.version >= 6 && software.version < 7.3) {
 		tmpbuf := make([]byte, 1+4*n.LabelNum)
 		tmpbuf[0] = n.LabelNum // frr: stream_putc(s, api_nh->label_num);
